@@ -8,6 +8,7 @@ from . import common, hgen
 COVERS = ['*']
 DOMAIN = {'quick': 'exhaustive: all sequences of <=2 refine calls over all non-empty subsets (one level per call) of active cells for 1D meshes with '
                    '2-3 coarse cells and the 2D 2x2 mesh (subsets of size <=2 there), plus sampled third calls and multi-level simultaneous marks; '
+                   '60 random deep 1D histories (5-10 calls, mostly marking the finest level) with disparity 2 and 3; '
                    'p in 1..3, disparity in {1,2,inf}, truncate in {F,T}, marks as set/list/tuple; seeded random histories in 1D-3D',
           'thorough': 'exhaustive depth 3 for 1D (<=4 coarse cells), more random histories'}
 RULE = 'case = (refinement history, configuration); distinct by input; every case builds the space through the public refine() calls'
@@ -193,6 +194,12 @@ def generate(tier, rng):
         yield 'space', {'spec': dict(h, disparity=cfg['disparity'], truncate=cfg['truncate'])}
         if k % 4 == 0:
             yield 'kinds', {'spec': dict(h, disparity=cfg['disparity'], truncate=cfg['truncate'])}
+    # deep, narrow hierarchies with finite disparity >= 2: the admissibility cascade has to reach levels l-d, l-2d, ...
+    for k in range(60 if quick else 400):
+        d = 2 if k % 4 else 3
+        base = {'dim': 1, 'n': 3 if k % 2 else 2, 'p': 1 + (k % 5 == 0), 'disparity': d, 'truncate': bool(k % 3 == 0)}
+        h = hgen.random_history(base, 5 + k % 4 + (2 if d == 3 else 0), rng, multi_level=False, finest_bias=0.85)
+        yield 'space', {'spec': h}
     for k in range(0 if quick else 12):
         base = {'dim': 3, 'n': 2, 'p': 1}
         h = hgen.random_history(base, 2, rng, multi_level=False)
